@@ -47,7 +47,11 @@ CONFIG = dict(
              "acceptable and the presented credentials equal the configured PAIR (reaches_handler_iff, creds_exact, "
              "state_change_needs_token). Token clause: token_valid_iff_issued_unexpired_partial (valid iff issued by this node and "
              "unexpired, HMAC unforgeability as hypothesis); the documented 'a new token invalidates earlier ones' (TokenFresh) is "
-             "proved FALSE of the code (token_fresh_counterexample) and recorded as known finding F10b. Tie H: every route x "
+             "proved FALSE of the code (token_fresh_counterexample) and recorded as known finding F10b. Byte level (raw_accept_iff, "
+             "issued_token_verifies, forged_signature_refused): a token is accepted iff its signature part equals mac(key, payload) and it is "
+             "unexpired; the correspondence recomputes HMAC-SHA256(secret, payload) in Lean (Sky.Hash) for every token the real node issues "
+             "or is shown (`token` ops: the node's secret is read from the running process) and sends forgeries built from observed tokens "
+             "without the secret (re-dated payload, payload||signature-tail splice, swapped / truncated / extended signatures). Tie H: every route x "
              "{GET,POST,PUT,DELETE,HEAD,OPTIONS,PATCH,..} x API-set configurations x header variants is sent through the REAL mux "
              "(real middlewares and handlers, panicking gateway stub); who answered is read from the call stack at the moment the "
              "response is written and must equal the specification's stage and status.",
@@ -71,13 +75,15 @@ CONFIG = dict(
         "tools/extract/routes: symbolic interpretation of newServerMux's registration closures (unrecognised shapes are rejected)",
         "harness/c27 + Sky/C27/Drv.lean: real mux vs specification, answering stage attributed by source position of the writing frame",
         "hand models of each middleware's check, of url.Parse/r.BasicAuth/iputil/ServeMux for the generated request shapes",
+        "lean/Sky/Hash HMAC-SHA256 (executable, core Lean) as the independent oracle for token signatures; the secret is read from the process (go:linkname)",
     ],
     assumptions=[
         "HMAC-SHA256 unforgeability: a token whose signature verifies was issued by this node (hypothesis hUF / field sigOK)",
         "net/http routes a request path to the exact pattern if registered, else to a GUI file/dir pattern, else to '/'",
         "the stub gateway does not influence the middleware chain (no middleware calls the gateway)",
     ],
-    rule="(1) every route of the regenerated table x 9 methods x {no set, each single API set, all sets}; (2) per route and method one "
+    rule="(0) `token` ops: 14 kinds of issued / forged tokens as byte strings, verdict of the real verifyCSRFToken vs HMAC recomputed in Lean; "
+         "(1) every route of the regenerated table x 9 methods x {no set, each single API set, all sets}; (2) per route and method one "
          "deviation at a time from an acceptable request through every Host / Origin / Referer / credential / token / content-type / "
          "preflight variant; (3) configuration sweep (7 host kinds x CSRF on/off x header check on/off x 6 credential pairs); "
          "(4) GUI file routes; (5) seeded random multi-deviation requests; thorough adds the full Host x Origin x credentials x token "
